@@ -54,7 +54,7 @@ class Ty:
         return list(self.args) if self.kind == "tuple" else [self]
 
 
-_TOK = re.compile(r"\s*([A-Za-z_][A-Za-z_0-9.]*(?::[A-Za-z_0-9]+)?|\[|\]|,)")
+_TOK = re.compile(r"\s*([A-Za-z_][A-Za-z_0-9.]*(?::[$A-Za-z_0-9]+)?|\[|\]|,)")
 
 
 def T(s):
